@@ -34,7 +34,7 @@ FILTER_SHAPED = list(range(10000, 10008))
 NARG = {"pkt.read": [0, 15, 255], "pkt.setpayload": [0, 1, 3, 100, 183, 184, 200], "pkt.setpayloadfn": [0, 10, 184, 200],
         "pkt.setafc": [0, 1, 2, 3], "af.getters": [0, 1], "af.setters": list(range(40)),
         "psi.accessors": [0, 13, 1021], "psi.pmt": [101, 256], "psi.filter": [101, 256, 0], "psi.readpmt": [100, 0x64],
-        "pkt.sync": [0, 100], "pkt.writer": [0, 1, 2]}
+        "pkt.sync": [0, 100], "pkt.writer": [0, 1, 2, -1]}   # -1: a packet writer that answers (0, nil): seeded C05-u1
 # integer arguments that select an argument SHAPE DERIVED FROM THE INPUT (goexec/total.go tot* helpers = Exec/TotExec.v):
 # two of them per input on top of the fixed ones (all of them on seeds and on the hostile adaptation-field grid)
 NSHAPED = {"af.setters": AF_SHAPED, "psi.filter": FILTER_SHAPED, "pkt.setpayload": [256, 257, 258], "psi.readpmt": [-1]}
